@@ -91,65 +91,154 @@ end Re
 
 open Re
 
-def reDIGIT : Re := plus (set [(48, 57)])
-def reREAL : Re :=
-  seqs [reDIGIT, opt (seq (chr '.') reDIGIT),
-        opt (seqs [alt (chr 'e') (chr 'E'), opt (alt (chr '+') (chr '-')), reDIGIT])]
-def reNUMBER : Re := alt reREAL reDIGIT
-def reIMAG : Re := seq reNUMBER (set [(106, 106), (74, 74)])
-def reAlpha : List (Nat × Nat) := [(65, 90), (97, 122)]
-def reAlnum_ : List (Nat × Nat) := [(48, 57), (65, 90), (95, 95), (97, 122)]
+/-! The rules below are the translator's output for src/blackbird.g4 (harness/translate.py) with token
+kinds instead of names; `GenProps/C14.lean` proves them equal to what the translator produces from
+the grammar file of the current tree. -/
+
+def rePLUS : Re := (lit "+")
+def reMINUS : Re := (lit "-")
+def reTIMES : Re := (lit "*")
+def reDIVIDE : Re := (lit "/")
+def rePWR : Re := (lit "**")
+def reASSIGN : Re := (lit "=")
+def reFOR : Re := (lit "for")
+def reIN : Re := (lit "in")
+def reDIGIT : Re := (plus (set [(48, 57)]))
+def reREAL : Re := (seqs [reDIGIT, (opt (seqs [(lit "."), reDIGIT])), (opt (seqs [(alts [(lit "e"), (lit "E")]), (opt (alts [(lit "+"), (lit "-")])), reDIGIT]))])
+def reNUMBER : Re := (alts [reREAL, reDIGIT])
+def reIMAG : Re := (seqs [reNUMBER, (set [(106, 106), (74, 74)])])
+def reINT : Re := reDIGIT
+def reFLOAT : Re := reREAL
+def reCOMPLEX : Re := (seqs [(opt (alts [(lit "+"), (lit "-")])), (opt (seqs [reNUMBER, (alts [(lit "+"), (lit "-")])])), reIMAG])
+def reSTR : Re := (seqs [(lit "\""), (star (nset [(34, 34), (10, 10), (13, 13)])), (lit "\"")])
+def reBOOL : Re := (alts [(lit "True"), (lit "False")])
+def reSEQUENCE : Re := (seqs [reNUMBER, (star (seqs [(lit ","), reNUMBER]))])
+def rePI : Re := (lit "pi")
+def reNEWLINE : Re := (alts [(lit "\r\n"), (lit "\r"), (lit "\n")])
+def reTAB : Re := (alts [(lit "\t"), (lit "    ")])
+def reSPACE : Re := (plus (set [(32, 32), (9, 9)]))
+def rePROGNAME : Re := (lit "name")
+def reVERSION : Re := (lit "version")
+def reTARGET : Re := (lit "target")
+def rePROGTYPE : Re := (lit "type")
+def reINCLUDE : Re := (lit "include")
+def reSQRT : Re := (lit "sqrt")
+def reSIN : Re := (lit "sin")
+def reCOS : Re := (lit "cos")
+def reTAN : Re := (lit "tan")
+def reARCSIN : Re := (lit "arcsin")
+def reARCCOS : Re := (lit "arccos")
+def reARCTAN : Re := (lit "arctan")
+def reSINH : Re := (lit "sinh")
+def reCOSH : Re := (lit "cosh")
+def reTANH : Re := (lit "tanh")
+def reARCSINH : Re := (lit "arcsinh")
+def reARCCOSH : Re := (lit "arccosh")
+def reARCTANH : Re := (lit "arctanh")
+def reEXP : Re := (lit "exp")
+def reLOG : Re := (lit "log")
+def rePERIOD : Re := (lit ".")
+def reCOMMA : Re := (lit ",")
+def reCOLON : Re := (lit ":")
+def reQUOTE : Re := (lit "\"")
+def reLBRAC : Re := (lit "(")
+def reRBRAC : Re := (lit ")")
+def reLSQBRAC : Re := (lit "[")
+def reRSQBRAC : Re := (lit "]")
+def reLBRACE : Re := (lit "{")
+def reRBRACE : Re := (lit "}")
+def reAPPLY : Re := (lit "|")
+def reTYPE_ARRAY : Re := (lit "array")
+def reTYPE_FLOAT : Re := (lit "float")
+def reTYPE_COMPLEX : Re := (lit "complex")
+def reTYPE_INT : Re := (lit "int")
+def reTYPE_STR : Re := (lit "str")
+def reTYPE_BOOL : Re := (lit "bool")
+def reREGREF : Re := (seqs [(lit "q"), reDIGIT])
+def reMEASURE : Re := (seqs [(lit "Measure"), (star (set [(65, 90), (97, 122)]))])
+def reNAME : Re := (seqs [(set [(65, 90), (97, 122)]), (star (set [(48, 57), (65, 90), (97, 122), (95, 95)]))])
+def reDEVICE : Re := (plus (set [(48, 57), (65, 90), (97, 122), (46, 46), (95, 95)]))
+def reCOMMENT : Re := (seqs [(lit "#"), (star (nset [(13, 13), (10, 10)]))])
+def reANY : Re := (nset [])
 
 /-- The 61 non-fragment lexer rules in grammar order: kind, regex, `-> skip`? -/
 def lexRules : List (TokKind × Re × Bool) :=
-  [ (.PLUS, lit "+", false), (.MINUS, lit "-", false), (.TIMES, lit "*", false),
-    (.DIVIDE, lit "/", false), (.PWR, lit "**", false), (.ASSIGN, lit "=", false),
-    (.FOR, lit "for", false), (.IN, lit "in", false),
-    (.INT, reDIGIT, false),
-    (.FLOAT, reREAL, false),
-    (.COMPLEX, seqs [opt (alt (chr '+') (chr '-')),
-                     opt (seq reNUMBER (alt (chr '+') (chr '-'))), reIMAG], false),
-    (.STR, seqs [chr '"', star (nset [(34, 34), (10, 10), (13, 13)]), chr '"'], false),
-    (.BOOL, alt (lit "True") (lit "False"), false),
-    (.SEQUENCE, seq reNUMBER (star (seq (chr ',') reNUMBER)), false),
-    (.PI, lit "pi", false),
-    (.NEWLINE, alts [lit "\r\n", lit "\r", lit "\n"], false),
-    (.TAB, alt (lit "\t") (lit "    "), false),
-    (.SPACE, plus (set [(32, 32), (9, 9)]), true),
-    (.PROGNAME, lit "name", false), (.VERSION, lit "version", false),
-    (.TARGET, lit "target", false), (.PROGTYPE, lit "type", false),
-    (.INCLUDE, lit "include", false),
-    (.SQRT, lit "sqrt", false), (.SIN, lit "sin", false), (.COS, lit "cos", false),
-    (.TAN, lit "tan", false), (.ARCSIN, lit "arcsin", false), (.ARCCOS, lit "arccos", false),
-    (.ARCTAN, lit "arctan", false), (.SINH, lit "sinh", false), (.COSH, lit "cosh", false),
-    (.TANH, lit "tanh", false), (.ARCSINH, lit "arcsinh", false),
-    (.ARCCOSH, lit "arccosh", false), (.ARCTANH, lit "arctanh", false),
-    (.EXP, lit "exp", false), (.LOG, lit "log", false),
-    (.PERIOD, lit ".", false), (.COMMA, lit ",", false), (.COLON, lit ":", false),
-    (.QUOTE, lit "\"", false), (.LBRAC, lit "(", false), (.RBRAC, lit ")", false),
-    (.LSQBRAC, lit "[", false), (.RSQBRAC, lit "]", false), (.LBRACE, lit "{", false),
-    (.RBRACE, lit "}", false), (.APPLY, lit "|", false),
-    (.TYPE_ARRAY, lit "array", false), (.TYPE_FLOAT, lit "float", false),
-    (.TYPE_COMPLEX, lit "complex", false), (.TYPE_INT, lit "int", false),
-    (.TYPE_STR, lit "str", false), (.TYPE_BOOL, lit "bool", false),
-    (.REGREF, seq (chr 'q') reDIGIT, false),
-    (.MEASURE, seq (lit "Measure") (star (set reAlpha)), false),
-    (.NAME, seq (set reAlpha) (star (set reAlnum_)), false),
-    (.DEVICE, plus (set [(46, 46), (48, 57), (65, 90), (95, 95), (97, 122)]), false),
-    (.COMMENT, seq (chr '#') (star (nset [(13, 13), (10, 10)])), true),
-    (.ANY, nset [], false) ]
+  [ (.PLUS, rePLUS, false),
+    (.MINUS, reMINUS, false),
+    (.TIMES, reTIMES, false),
+    (.DIVIDE, reDIVIDE, false),
+    (.PWR, rePWR, false),
+    (.ASSIGN, reASSIGN, false),
+    (.FOR, reFOR, false),
+    (.IN, reIN, false),
+    (.INT, reINT, false),
+    (.FLOAT, reFLOAT, false),
+    (.COMPLEX, reCOMPLEX, false),
+    (.STR, reSTR, false),
+    (.BOOL, reBOOL, false),
+    (.SEQUENCE, reSEQUENCE, false),
+    (.PI, rePI, false),
+    (.NEWLINE, reNEWLINE, false),
+    (.TAB, reTAB, false),
+    (.SPACE, reSPACE, true),
+    (.PROGNAME, rePROGNAME, false),
+    (.VERSION, reVERSION, false),
+    (.TARGET, reTARGET, false),
+    (.PROGTYPE, rePROGTYPE, false),
+    (.INCLUDE, reINCLUDE, false),
+    (.SQRT, reSQRT, false),
+    (.SIN, reSIN, false),
+    (.COS, reCOS, false),
+    (.TAN, reTAN, false),
+    (.ARCSIN, reARCSIN, false),
+    (.ARCCOS, reARCCOS, false),
+    (.ARCTAN, reARCTAN, false),
+    (.SINH, reSINH, false),
+    (.COSH, reCOSH, false),
+    (.TANH, reTANH, false),
+    (.ARCSINH, reARCSINH, false),
+    (.ARCCOSH, reARCCOSH, false),
+    (.ARCTANH, reARCTANH, false),
+    (.EXP, reEXP, false),
+    (.LOG, reLOG, false),
+    (.PERIOD, rePERIOD, false),
+    (.COMMA, reCOMMA, false),
+    (.COLON, reCOLON, false),
+    (.QUOTE, reQUOTE, false),
+    (.LBRAC, reLBRAC, false),
+    (.RBRAC, reRBRAC, false),
+    (.LSQBRAC, reLSQBRAC, false),
+    (.RSQBRAC, reRSQBRAC, false),
+    (.LBRACE, reLBRACE, false),
+    (.RBRACE, reRBRACE, false),
+    (.APPLY, reAPPLY, false),
+    (.TYPE_ARRAY, reTYPE_ARRAY, false),
+    (.TYPE_FLOAT, reTYPE_FLOAT, false),
+    (.TYPE_COMPLEX, reTYPE_COMPLEX, false),
+    (.TYPE_INT, reTYPE_INT, false),
+    (.TYPE_STR, reTYPE_STR, false),
+    (.TYPE_BOOL, reTYPE_BOOL, false),
+    (.REGREF, reREGREF, false),
+    (.MEASURE, reMEASURE, false),
+    (.NAME, reNAME, false),
+    (.DEVICE, reDEVICE, false),
+    (.COMMENT, reCOMMENT, true),
+    (.ANY, reANY, false) ]
 
+/-- one step of the scan over the rules: a longer match replaces the incumbent, an equal one does not -/
+def bestStep (s : List Char) (acc : Option (TokKind × Bool × Nat)) (x : TokKind × Re × Bool) :
+    Option (TokKind × Bool × Nat) :=
+  match x.2.1.longest s with
+  | some n =>
+      if n = 0 then acc else
+      match acc with
+      | some (_, _, m) => if n > m then some (x.1, x.2.2, n) else acc
+      | none => some (x.1, x.2.2, n)
+  | none => acc
 
 /-- Best rule at the head of `s`: longest match, earliest rule on ties. -/
 def bestRule (rules : List (TokKind × Re × Bool)) (s : List Char) : Option (TokKind × Bool × Nat) :=
-  rules.foldl (fun acc (k, r, skip) =>
-    match r.longest s with
-    | some n =>
-        if n = 0 then acc else
-        match acc with
-        | some (_, _, m) => if n > m then some (k, skip, n) else acc
-        | none => some (k, skip, n)
-    | none => acc) none
+  rules.foldl (bestStep s) none
 
 /-- advance a position over the consumed characters -/
 def advance (p : Pos) : List Char → Pos
